@@ -1,8 +1,10 @@
 package main
 
 import (
+	"fmt"
 	"os"
 	"runtime/pprof"
+	"time"
 )
 
 func init() {
@@ -14,3 +16,19 @@ func init() {
 }
 
 var stopProf = func() {}
+
+func only() bool {
+	s := os.Getenv("C17ONLY")
+	if s == "" {
+		return false
+	}
+	var kind string
+	var w, h, d, full int
+	fmt.Sscanf(s, "%s %d %d %d %d", &kind, &w, &h, &d, &full)
+	l := chk.NewLocal()
+	t0 := time.Now()
+	search(l, kind, w, h, d, full == 1)
+	l.Merge()
+	fmt.Println("took", time.Since(t0))
+	return true
+}
